@@ -169,16 +169,92 @@ class Forest(object):
                 else:
                     return Applied('skipped')
                 a = Applied('add_x' + (':foreign' if op.get('foreign') else ''), parent)
+                new = None
                 try:
                     if cls in ('Message', 'Group'):
                         is_group = name in T.lib(parent.version).GROUPS
-                        (parent.add_group if is_group else parent.add_segment)(name)
+                        new = (parent.add_group if is_group else parent.add_segment)(name)
+                        if is_group:
+                            new = None
                     elif cls == 'Segment':
-                        parent.add_field(name)
+                        new = parent.add_field(name)
                     elif cls == 'Field':
-                        parent.add_component(name)
+                        new = parent.add_component(name)
                     else:
-                        parent.add_subcomponent(name)
+                        new = parent.add_subcomponent(name)
+                except Exception as e:
+                    a.raised = e
+                if new is not None and parent.validation_level == TOL:
+                    # give the new child a content of its own (TOLERANT accepts any text), so that a later mix-up of
+                    # same-named siblings is visible in the encoding
+                    self.counter = getattr(self, 'counter', 0) + 1
+                    try:
+                        new.value = ('%s|n%d' % (new.name, self.counter)) if type(new).__name__ == 'Segment' else 'n%d' % self.counter
+                    except Exception:
+                        pass
+                return a
+            if k == 'assign_copy':
+                # a fresh element with the name of one of the parent's children, with the same or another level / version,
+                # assigned by name, by index or added: refused when it does not match the tree
+                parent = self.resolve(op['parent'], True)
+                cls = type(parent).__name__
+                names = self.child_names(parent)
+                if not names or cls == 'SubComponent':
+                    return Applied('skipped')
+                name = names[op['k'] % len(names)]
+                child_cls = {'Message': 'Segment', 'Group': 'Segment', 'Segment': 'Field', 'Field': 'Component',
+                             'Component': 'SubComponent'}[cls]
+                if child_cls == 'Segment' and name in T.lib(parent.version).GROUPS:
+                    return Applied('skipped')
+                lvl = parent.validation_level if op['mismatch'] in (0, 2) else 3 - parent.validation_level
+                ver = parent.version if op['mismatch'] in (0, 1) else (self.v2 if parent.version == self.v else self.v)
+                try:
+                    C = getattr(core, child_cls)
+                    child = C(name, version=ver, validation_level=lvl)
+                    if child_cls != 'Segment':
+                        child.value = lit.valid(child.datatype if T.is_base(ver, child.datatype) else 'ST', op['k'])
+                except Exception as e:
+                    return Applied('skipped', note='assign_copy: ' + _exc(e))
+                self.all.append(child)
+                a = Applied('assign_copy:%s:%s' % (op['how'], ['match', 'level', 'version'][op['mismatch']]), parent, [child])
+                try:
+                    if op['how'] == 'name':
+                        setattr(parent, name, child)
+                    elif op['how'] == 'index':
+                        getattr(parent, name)[op['i']] = child
+                    else:
+                        parent.add(child)
+                except Exception as e:
+                    a.raised = e
+                return a
+            if k == 'tassign':
+                # attribute assignment (not .value=) at the end of a traversal chain: a refused one must not materialise the chain
+                el = self.resolve(op['start'], True)
+                a = Applied('tassign', el)
+                try:
+                    cur = el
+                    names = []
+                    for step in op['chain']:
+                        base = cur[0] if isinstance(cur, core.ElementProxy) and len(cur) else cur
+                        names = self.child_names(base) if not isinstance(base, core.ElementProxy) else self._names_of_absent(cur)
+                        if not names:
+                            break
+                        name = names[step % len(names)]
+                        if step is op['chain'][-1] or not names:
+                            break
+                        cur = getattr(cur, name)
+                    if not names:
+                        return Applied('skipped')
+                    name = names[op['chain'][-1] % len(names)]
+                    if op['what'] == 'element' and self.free:
+                        obj = self.free[op['child'] % len(self.free)]
+                        if obj is el or self._is_ancestor(obj, el) or obj.parent is not None:
+                            return Applied('skipped')
+                        a.objects = [obj]
+                        name = obj.name or name
+                    else:
+                        obj = ['a', 'x' * 300, 'a^b^c~d', 'QQQ|1'][op['child'] % 4]
+                    setattr(cur, name, obj)
                 except Exception as e:
                     a.raised = e
                 return a
@@ -478,6 +554,12 @@ def op_strategy():
         st.fixed_dictionaries({'op': st.just('assign_text'), 'parent': NEAR, 'k': st.integers(0, 3), 'val_k': st.integers(0, 3),
                                'i': st.one_of(st.none(), st.integers(-1, 2))}),
         st.fixed_dictionaries({'op': st.just('add_x_twice'), 'parent': NEAR, 'k': st.integers(0, 3)}),
+        st.fixed_dictionaries({'op': st.just('assign_copy'), 'parent': NEAR, 'k': st.integers(0, 3), 'i': st.integers(-1, 2),
+                               'how': st.sampled_from(['name', 'index', 'index', 'add']), 'mismatch': st.sampled_from([0, 1, 1, 2])}),
+        st.fixed_dictionaries({'op': st.just('assign_copy'), 'parent': NEAR, 'k': st.integers(0, 3), 'i': st.integers(-1, 2),
+                               'how': st.sampled_from(['name', 'index', 'index', 'add']), 'mismatch': st.sampled_from([0, 1, 1, 2])}),
+        st.fixed_dictionaries({'op': st.just('tassign'), 'start': NEAR, 'chain': st.lists(st.integers(0, 8), min_size=1, max_size=3),
+                               'what': st.sampled_from(['element', 'text']), 'child': st.integers(0, 9)}),
         st.fixed_dictionaries({'op': st.just('add_x'), 'parent': NEAR, 'k': st.integers(0, 3), 'foreign': st.just(False)}),
         st.fixed_dictionaries({'op': st.just('read'), 'start': SHALLOW, 'chain': st.lists(st.integers(0, 12), min_size=1, max_size=4)}),
         st.fixed_dictionaries({'op': st.just('twrite'), 'start': SHALLOW, 'chain': st.lists(st.integers(0, 12), min_size=1, max_size=4),
@@ -507,6 +589,14 @@ def histories(draw, cells, max_ops):
     cell = draw(st.sampled_from(cells))
     drawn = draw(st.lists(op_strategy(), min_size=1, max_size=max_ops))
     ops = []
+    if draw(st.integers(0, 3)) == 0:
+        # scenario seed: two (or three) same-named siblings with different content, then a replacement of one that is
+        # not the last - accepted or refused (other level / version); random operations follow
+        P = draw(NEAR)
+        K = draw(st.integers(0, 5))
+        ops += [{'op': 'add_x', 'parent': P, 'k': K, 'foreign': False} for _ in range(draw(st.integers(2, 3)))]
+        ops.append({'op': 'assign_copy', 'parent': P, 'k': K, 'i': draw(st.integers(0, 1)), 'how': draw(st.sampled_from(['index', 'name'])),
+                    'mismatch': draw(st.integers(0, 2))})
     for op in drawn:
         if op['op'] == 'add_x_twice':       # two children of the same name: two plain operations
             ops += [dict(op, op='add_x', foreign=False), dict(op, op='add_x', foreign=False)]
